@@ -1,8 +1,13 @@
 ----------------------------- MODULE MockeryMC -----------------------------
 (* Model constants of the root specification: the WORLDS explored (cfg files cannot spell records).
    A configuration is written as a set of triples <<node, parameter, value>>; families of worlds vary one aspect
-   of a run over a fixed background and are united.  Ill-formed worlds (two mocks of one file with the same struct
-   name or different force-file-write: the statement leaves their outcome open) are filtered out. *)
+   of a run over a background B and are united.  Backgrounds:
+     Bg3   a, a/b (through recursion) fully mocked, k mocks its listed K1; default file name: ONE file per package
+           (three output files, the one of package a holds three mocks)
+     Bg5   the same with one file per interface and per entry (five output files)
+   Ill-formed worlds (two mocks of one file with the same struct name or different force-file-write: the statement
+   leaves their outcome open) are filtered out.  Families are operators with parameters on purpose: TLC evaluates
+   every zero-arity constant definition at start-up. *)
 EXTENDS Mockery
 
 CfgOf(T) == [n \in {t[1] : t \in T} |->
@@ -11,7 +16,7 @@ CfgOf(T) == [n \in {t[1] : t \in T} |->
 BaseLay == [cwd |-> <<"w">>, mode |-> "search_yml", cfgdir |-> <<"w">>, decoy |-> LY!NoDecoy]
 NoFp    == [point |-> "-", key |-> "-"]
 World(tag, shape, argv, lay, T, occ, fp, pf) ==
-  [tag |-> tag, shape |-> shape, argv |-> argv, lay |-> lay, cfg |-> CfgOf(T), occ |-> occ, fp |-> fp, pkgfault |-> pf]
+  [tag |-> tag, shape |-> shape, argv |-> argv, lay |-> lay, cfg |-> CfgOf(T), occ |-> occ, fp |-> fp, pkgfault |-> pf, tagged |-> FALSE]
 Run(tag, shape, T) == World(tag, shape, "run", BaseLay, T, {}, NoFp, "-")
 
 \* marker values: the text names the level that wrote it
@@ -34,91 +39,98 @@ SN(n) == CASE n = "env" -> <<Lit("V"), INm>>
            [] n = "k.K1" -> <<Lit("J"), INm>>
 Lv4 == {"root", "a", "a.A1", "a.A1.1"}
 
-\* background: everything of a and (through recursion) a/b is mocked, k mocks its listed K1; entry 2 always names itself
-Bg == {<<"a", "all", TRUE>>, <<"a", "recursive", TRUE>>, <<"a.A1.2", "structname", SN("a.A1.2")>>}
-BgPer == Bg \cup {<<"root", "filename", <<Lit("m_"), INm, Lit(".go")>> >>}            \* one file per interface ...
-BgPerE == BgPer \cup {<<"a.A1.2", "filename", FN("a.A1.2")>>}                       \* ... and per entry
+E2   == {<<"a.A1.2", "structname", SN("a.A1.2")>>}                                  \* entry 2 always names itself
+PerI == {<<"root", "filename", <<Lit("m_"), INm, Lit(".go")>> >>}                    \* one file per interface ...
+PerE == PerI \cup {<<"a.A1.2", "filename", FN("a.A1.2")>>}                           \* ... and per entry
+Bg3  == {<<"a", "all", TRUE>>, <<"a", "recursive", TRUE>>} \cup E2
+Bg5  == Bg3 \cup PerE
 
-\* LEVELS: each of the two parameters at every subset of the four levels, the other one nowhere / everywhere
+\* LEVELS: each of the two parameters at every subset of the four levels, the other one at each set of OtherSets
 Levels(OtherSets) ==
-  UNION {{Run("levels", "S1", Bg \cup {<<n, "filename", FN(n)>> : n \in S} \cup {<<n, "structname", SN(n)>> : n \in O}),
-          Run("levels", "S1", Bg \cup {<<n, "structname", SN(n)>> : n \in S} \cup {<<n, "filename", FN(n)>> : n \in O})}
+  UNION {{Run("levels", "S1", Bg3 \cup {<<n, "filename", FN(n)>> : n \in S} \cup {<<n, "structname", SN(n)>> : n \in O}),
+          Run("levels", "S1", Bg3 \cup {<<n, "structname", SN(n)>> : n \in S} \cup {<<n, "filename", FN(n)>> : n \in O})}
          : S \in SUBSET Lv4, O \in OtherSets}
 \* templated values referring to each other: the file name contains the (templated) struct name
-CrossRef == {Run("crossref", "S1", Bg \cup {<<"root", "filename", <<Lit("f_"), Var("StructName"), Lit(".go")>> >>}
-                                     \cup {<<n, "structname", SN(n)>> : n \in S}) : S \in {{}, {"a"}, {"a.A1.1"}, {"root", "a.A1"}}}
+CrossRef(Sets) == {Run("crossref", "S1", Bg3 \cup {<<"root", "filename", <<Lit("f_"), Var("StructName"), Lit(".go")>> >>}
+                                           \cup {<<n, "structname", SN(n)>> : n \in S}) : S \in Sets}
 
 \* SELECT: all / listed / include / exclude at root and package level, listed or not
-SelectW ==
-  {Run("select", sh, {<<"a", "recursive", TRUE>>, <<"a.A1.2", "structname", SN("a.A1.2")>>, <<"root", "filename", <<Lit("m_"), INm, Lit(".go")>> >>,
-                      <<"a.A1.2", "filename", FN("a.A1.2")>>}
+SelectW(Shapes, Incs, F) ==
+  {Run("select", sh, {<<"a", "recursive", TRUE>>} \cup E2 \cup F
                      \cup (IF ra = "U" THEN {} ELSE {<<"root", "all", ra = "T">>})
                      \cup (IF pa = "U" THEN {} ELSE {<<"a", "all", pa = "T">>})
                      \cup (IF inc = {} THEN {} ELSE {<<"a", "include-interface-regex", inc>>, <<"k", "include-interface-regex", {"K2"}>>})
                      \cup (IF exc = {} THEN {} ELSE {<<"a", "exclude-interface-regex", exc>>}))
-     : sh \in {"S1", "S2"}, ra \in {"U", "T"}, pa \in {"U", "T", "F"}, inc \in {{}, {"A2"}, {"A1", "A2", "B1"}}, exc \in {{}, {"A2"}}}
+     : sh \in Shapes, ra \in {"U", "T"}, pa \in {"U", "T", "F"}, inc \in Incs, exc \in {{}, {"A2"}}}
 
 \* RECURSIVE: recursive and exclude-subpkg-regex at root and package level
-Recur ==
-  {Run("recursive", "S1", {<<"root", "all", TRUE>>, <<"a.A1.2", "structname", SN("a.A1.2")>>, <<"root", "filename", <<Lit("m_"), INm, Lit(".go")>> >>,
-                           <<"a.A1.2", "filename", FN("a.A1.2")>>}
+Recur(RootExcl, F) ==
+  {Run("recursive", "S1", {<<"root", "all", TRUE>>} \cup E2 \cup F
                           \cup (IF rr = "U" THEN {} ELSE {<<"root", "recursive", rr = "T">>})
                           \cup (IF pr = "U" THEN {} ELSE {<<"a", "recursive", pr = "T">>})
                           \cup (IF rx THEN {<<"root", "exclude-subpkg-regex", <<"ab">> >>} ELSE {})
                           \cup (IF px THEN {<<"a", "exclude-subpkg-regex", <<"ab">> >>} ELSE {}))
-     : rr \in {"U", "T"}, pr \in {"U", "T", "F"}, rx \in BOOLEAN, px \in BOOLEAN}
+     : rr \in {"U", "T"}, pr \in {"U", "T", "F"}, rx \in RootExcl, px \in BOOLEAN}
 
 \* FS: pre-existing output files x force-file-write at root / package level
-FsBase == BgPerE
-FsFiles == CFiles(Run("x", "S1", FsBase))
+FilesOf(B) == CFiles(Run("x", "S1", B))
 Force(v) == CASE v = "U" -> {} [] v = "rootT" -> {<<"root", "force-file-write", TRUE>>} [] v = "aT" -> {<<"a", "force-file-write", TRUE>>}
               [] v = "rootT-aF" -> {<<"root", "force-file-write", TRUE>>, <<"a", "force-file-write", FALSE>>}
 OneFile(S) == CHOOSE f \in S : \A g \in S : Len(f) <= Len(g)
-FsWorlds(OccSets) ==
-  {World("fs", "S1", "run", BaseLay, FsBase \cup Force(v), occ, NoFp, "-") : v \in {"U", "rootT", "aT", "rootT-aF"}, occ \in OccSets}
+FsWorlds(B, OccSets) ==
+  {World("fs", "S1", "run", BaseLay, B \cup Force(v), occ, NoFp, "-") : v \in {"U", "rootT", "aT", "rootT-aF"}, occ \in OccSets}
 
 \* FAULT: one fault per world
 TFaults == {"noschema", "needkey", "badexec", "badfmt", "ok"}
-Fault ==
-  {Run("fault-template", "S1", BgPerE \cup {<<n, "template", t>>}) : t \in TFaults, n \in {"root", "a", "k"}}
-  \cup {World("fault-failpoint", "S1", "run", BaseLay, FsBase, {}, [point |-> pt, key |-> f], "-") : pt \in {"mkdir", "stat", "write"}, f \in FsFiles}
-  \cup {Run("fault-missing", "S3", BgPerE \cup A) : A \in {{}, {<<"k", "all", TRUE>>}}}
-  \cup {World("fault-input", "S1", "run", BaseLay, BgPerE, {}, NoFp, pf) : pf \in {"parse-error", "unknown-key", "nocfg"}}
-  \cup {Run("fault-cyclic", "S1", BgPerE \cup {<<"a.A1.1", "structname", <<Var("StructName"), Lit("x")>> >>})}
-  \cup {Run("fault-conflict-template", "S1", Bg \cup {<<"a.A1", "filename", FN("a.A1")>>, <<"a.A1.1", "template", "matryer">>}),
-        Run("fault-conflict-pkgname", "S1", Bg \cup {<<"a.A1", "filename", FN("a.A1")>>, <<"a.A1.1", "pkgname", <<Lit("other")>> >>}),
-        Run("fault-conflict-srcpkg", "S1", {<<"root", "all", TRUE>>, <<"a.A1.2", "structname", SN("a.A1.2")>>, <<"root", "dir", "up">>})}
-  \cup {Run("dir-forms", "S1", BgPerE \cup {<<n, "dir", d>>}) : n \in {"root", "a"}, d \in {"mocks", "up"}}
-  \cup {Run("loglevel", "S1", BgPerE \cup {<<n, "log-level", v>>}) : n \in {"env", "root", "flag"}, v \in {"debug", "error", "bogus"}}
+Fault(B) ==
+  {Run("fault-template", "S1", B \cup {<<n, "template", t>>}) : t \in TFaults, n \in {"root", "a", "k"}}
+  \cup {World("fault-failpoint", "S1", "run", BaseLay, B, {}, [point |-> pt, key |-> f], "-") : pt \in {"mkdir", "stat", "write"}, f \in FilesOf(B)}
+  \cup {Run("fault-missing", "S3", B \cup A) : A \in {{}, {<<"k", "all", TRUE>>}}}
+  \cup {World("fault-input", "S1", "run", BaseLay, B, {}, NoFp, pf) : pf \in {"parse-error", "unknown-key", "nocfg"}}
+  \cup {Run("fault-cyclic", "S1", B \cup {<<"a.A1.1", "structname", <<Var("StructName"), Lit("x")>> >>})}
+  \cup {Run("fault-conflict-template", "S1", Bg3 \cup {<<"a.A1", "filename", FN("a.A1")>>, <<"a.A1.1", "template", "matryer">>}),
+        Run("fault-conflict-pkgname", "S1", Bg3 \cup {<<"a.A1", "filename", FN("a.A1")>>, <<"a.A1.1", "pkgname", <<Lit("other")>> >>}),
+        Run("fault-conflict-srcpkg", "S1", {<<"root", "all", TRUE>>, <<"root", "dir", "up">>} \cup E2)}
+  \cup {Run("dir-forms", "S1", B \cup {<<n, "dir", d>>}) : n \in {"root", "a"}, d \in {"mocks", "up"}}
+  \cup {Run("loglevel", "S1", B \cup {<<n, "log-level", v>>}) : n \in {"env", "root", "flag"}, v \in {"debug", "error", "bogus"}}
 
 \* SOURCES: defaults < MOCKERY_* < file < flags for the top level
-Sources ==
-  {Run("sources", "S1", BgPerE \cup {<<n, "structname", SN(n)>> : n \in S} \cup {<<n, "log-level", IF n = "env" THEN "debug" ELSE IF n = "root" THEN "warn" ELSE "error">> : n \in L})
-     : S \in SUBSET {"env", "root"}, L \in SUBSET {"env", "root", "flag"}}
-  \cup {Run("sources", "S2", {<<"env", "all", TRUE>>, <<"root", "filename", <<Lit("m_"), INm, Lit(".go")>> >>} \cup A) : A \in {{}, {<<"a", "all", FALSE>>}}}
+Sources(B) ==
+  {Run("sources", "S1", B \cup {<<n, "structname", SN(n)>> : n \in S}
+                          \cup {<<n, "log-level", IF n = "env" THEN "debug" ELSE IF n = "root" THEN "warn" ELSE "error">> : n \in L})
+     : S \in SUBSET {"env", "root"}, L \in {{}, {"env"}, {"env", "root"}, {"env", "root", "flag"}, {"root", "flag"}}}
+  \cup {Run("sources", "S2", {<<"env", "all", TRUE>>} \cup PerI \cup A) : A \in {{}, {<<"a", "all", FALSE>>}}}
+
+\* BUILD TAGS: K2 of package k lives behind `//go:build extra`; build-tags / MOCKERY_BUILD_TAGS at the top level
+BuildTags(B) ==
+  {[Run("build-tags", "S1", B \cup {<<"k", "all", TRUE>>} \cup T) EXCEPT !.tagged = TRUE] :
+     T \in {{}, {<<"root", "build-tags", "extra">>}, {<<"env", "build-tags", "extra">>}, {<<"root", "build-tags", "other">>},
+            {<<"env", "build-tags", "other">>, <<"root", "build-tags", "extra">>}}}
+  \cup {[World("build-tags", "S1", "showconfig", BaseLay, B \cup {<<"env", "build-tags", "extra">>}, {}, NoFp, "-") EXCEPT !.tagged = TRUE]}
 
 \* COMMANDS that are not the default command, over healthy and broken configurations
-Commands ==
-  {World("command", "S1", argv, BaseLay, T, occ, NoFp, pf) :
+Commands(B) ==
+  {World("command", "S1", argv, BaseLay, T, occ, NoFp, "-") :
      argv \in {"showconfig", "version", "help", "badflag", "badcmd"},
-     T \in {BgPerE, BgPerE \cup {<<n, "structname", SN(n)>> : n \in Lv4} \cup {<<"root", "log-level", "bogus">>}},
-     occ \in {{}, FsFiles}, pf \in {"-"}}
-  \cup {World("command", "S1", "showconfig", BaseLay, BgPerE, {}, NoFp, pf) : pf \in {"unknown-key", "nocfg", "parse-error"}}
+     T \in {B, B \cup {<<n, "structname", SN(n)>> : n \in Lv4} \cup {<<"root", "log-level", "bogus">>}},
+     occ \in {{}, FilesOf(B)}}
+  \cup {World("command", "S1", "showconfig", BaseLay, B, {}, NoFp, pf) : pf \in {"unknown-key", "nocfg", "parse-error"}}
+  \cup {World("command", "S1", "showconfig", BaseLay, x.T, {}, NoFp, "-") :
+          x \in {[T |-> {<<"root", "all", TRUE>>, <<"root", "recursive", TRUE>>} \cup E2],
+                 [T |-> B \cup {<<"a", "exclude-subpkg-regex", <<"ab">> >>}],
+                 [T |-> {<<"a", "recursive", TRUE>>, <<"env", "all", TRUE>>, <<"env", "structname", SN("env")>>} \cup E2]}}
 
 \* LOCATE: where the config file is and how it is found (Layout.tla), with a decoy that must not be used
 Lays(Modes, Cwds) == {l \in LY!AllLayouts : l.mode \in Modes /\ l.cwd \in Cwds /\ l.cfgdir \in {<< >>, <<"w">>} /\ l.mode # "search_both"
                                              /\ l.decoy \in {LY!NoDecoy, << >>, <<"w">>, <<"w", "a">>}}
-Locate(Modes, Cwds, Argvs) ==
-  {World("locate", "S1", argv, l, BgPerE \cup {<<"root", "structname", SN("root")>>}, {}, NoFp, "-") : l \in Lays(Modes, Cwds), argv \in Argvs}
+Locate(B, Modes, Cwds, Argvs) ==
+  {World("locate", "S1", argv, l, B \cup {<<"root", "structname", SN("root")>>}, {}, NoFp, "-") : l \in Lays(Modes, Cwds), argv \in Argvs}
 
 AllModes == LY!Modes \ {"search_both"}
-Quick == Levels({{}, Lv4}) \cup CrossRef \cup SelectW \cup Recur \cup FsWorlds({{}, {OneFile(FsFiles)}, FsFiles}) \cup Fault \cup Sources
-         \cup Commands \cup Locate(AllModes, {<<"w">>, <<"w", "a">>}, {"run"}) \cup Locate({"search_yml", "flag_rel", "env_abs", "flagenv_abs"}, {<<"w", "a">>}, {"showconfig"})
-Thorough == Quick \cup Levels(SUBSET Lv4) \cup FsWorlds(SUBSET FsFiles)
-            \cup Locate(AllModes, LY!ModDirs, {"run", "showconfig"})
-            \cup {[x EXCEPT !.occ = FsFiles, !.cfg = Over(x.cfg, CfgOf({<<"env", "force-file-write", TRUE>>}))] : x \in SelectW \cup Recur}
-            \cup {[x EXCEPT !.fp = [point |-> pt, key |-> f]] : x \in FsWorlds({{}, FsFiles}), pt \in {"stat", "write"}, f \in FsFiles}
-
+Quick == Levels({{}}) \cup CrossRef({{}, {"a.A1.1"}}) \cup SelectW({"S1", "S2"}, {{}, {"A1", "A2", "B1"}}, {})
+         \cup Recur({FALSE}, {}) \cup FsWorlds(Bg5, {{}, {OneFile(FilesOf(Bg5))}, FilesOf(Bg5)}) \cup Fault(Bg3) \cup Sources(Bg3) \cup BuildTags(Bg3)
+         \cup Commands(Bg3) \cup Locate(Bg3, AllModes, {<<"w", "a">>}, {"run"})
+         \cup Locate(Bg3, {"search_yml", "flag_rel", "env_abs", "flagenv_abs"}, {<<"w">>}, {"showconfig"})
+MCTiny     == {Run("tiny", "S1", Bg5)}
 MCQuick    == {x \in Quick : WellFormed(x)}
-MCThorough == {x \in Thorough : WellFormed(x)}
 =============================================================================
